@@ -18,7 +18,7 @@ from vf.props import c03
 PROPERTY_ID = 'C16'
 RULE = ('plaintexts of 0,1,2,15,16,17,31,32,33,64,100,255,256,300,1000 and random lengths x bundles with 0-2 extension blocks '
         'and CRC types x modes COSE_Encrypt0 A256GCM / A128GCM (direct key) and COSE_Encrypt A256GCM with an A256KW-wrapped '
-        'content key x fixed and generated IVs x receiver accept on/off; mutations: EVERY single-bit flip of the encoding for '
+        'content key x one or two targets per confidentiality block x fixed and generated IVs x receiver accept on/off; mutations: EVERY single-bit flip of the encoding for '
         'bundles <= 300 octets (sampled above), field-level edits with CRCs recomputed (primary fields, target flags/data, '
         'security source, scope map, protected header, IV, key id, wrapped key, GCM tag octets), wrong and missing keys. '
         'Non-trivial = a bundle carrying a confidentiality block for which oracle and receiver both produced a verdict; '
@@ -31,7 +31,7 @@ ASSUMPTIONS = [
 DECIDING = ['bp.app.bpsec:CoseContext.apply_bcb', 'bp.app.bpsec:CoseContext.verify_bcb', 'bp.app.bpsec:CoseContext.verify_bcb_target',
             'bp.app.bpsec:CoseSecOpCtx.get_external_aad', 'bp.app.bpsec:CoseSecOpCtx.decode_msg']
 REQUIRED_OBS = ['wire_ciphertext_confirmed', 'reencrypt_equal', 'plaintext_recovered', 'empty_plaintexts', 'kw_bundles',
-                'mutants_expect_reject', 'mutants_expect_accept', 'verify_fail_seen', 'wrong_key_runs']
+                'mutants_expect_reject', 'mutants_expect_accept', 'verify_fail_seen', 'wrong_key_runs', 'multi_target_bcbs']
 
 KINDS = ['enc0-256', 'enc0-128', 'enc-kw']
 LENGTHS = [0, 1, 2, 15, 16, 17, 31, 32, 33, 64, 100, 255, 256, 300, 1000]
@@ -49,13 +49,13 @@ def plaintext_for(rng, plen):
     return bytes(rng.getrandbits(8) for _ in range(plen))
 
 
-def produce(kind, bundle, content_iv=None):
+def produce(kind, bundle, content_iv=None, target_types=(1,)):
     from vf.world.sim import Sim
     from vf import sec_harness as sh
     from vf.gen import bundles as gen
     from bp.util import BundleContainer
     sim = Sim(0, 'eager')
-    src = sh.source_node(sim, kind, sec_type='bcb', content_iv=content_iv)
+    src = sh.source_node(sim, kind, sec_type='bcb', content_iv=content_iv, target_types=target_types)
     src.send(BundleContainer(gen.to_real(bundle)))
     sim.settle(5000)
     outs = src.cl.datas()
@@ -100,6 +100,14 @@ def wire_check(kind, bundle, data, plain, obs):
     except cb.SecError as err:
         problems.append(('wire', 'the confidentiality block produced by the agent does not decrypt independently: %s' % err))
         return problems
+    orig_by_num = {blk['num']: blk for blk in bundle['blocks']}
+    for tnum, recovered in out.items():
+        if tnum != target['num'] and tnum in orig_by_num:
+            wire_other = next(blk for blk in dec['blocks'] if blk['num'] == tnum)['data']
+            if recovered != orig_by_num[tnum]['data']:
+                problems.append(('wire', 'independent decryption of target block %d differs from its plaintext' % tnum))
+            if orig_by_num[tnum]['data'] and wire_other == orig_by_num[tnum]['data']:
+                problems.append(('plaintext-on-wire', 'the data of target block %d on the wire is the plaintext' % tnum))
     if out.get(target['num']) != plain:
         problems.append(('wire', 'independent decryption yields %d octets that differ from the plaintext' % len(out.get(target['num']) or b'')))
     else:
@@ -237,15 +245,25 @@ def cases(tier, seed):
             out.append(dict(id='flips-%s-%d' % (kind, rep), kind='flips', cose=kind, seed=seed * 101 + idx, limit=None if (thorough or rep == 0) else 900))
             out.append(dict(id='fields-%s-%d' % (kind, rep), kind='fields', cose=kind, seed=seed * 103 + idx))
             idx += 1
+    for kind in KINDS:
+        for rep in range(6 if thorough else 1):
+            out.append(dict(id='multi-flips-%s-%d' % (kind, rep), kind='flips', cose=kind, seed=seed * 131 + idx, multi=True, limit=None if thorough else 1500))
+            out.append(dict(id='multi-fields-%s-%d' % (kind, rep), kind='fields', cose=kind, seed=seed * 137 + idx, multi=True))
+            out.append(dict(id='multi-roundtrip-%s-%d' % (kind, rep), kind='roundtrip', cose=kind, plen=rng_len(seed, idx), seed=seed * 139 + idx, reps=1, multi=True))
+            idx += 1
     out.append(dict(id='keys', kind='keys', seed=seed))
     return out
+
+
+def rng_len(seed, idx):
+    return [0, 1, 16, 33, 200][(seed + idx) % 5]
 
 
 def run_case(case):
     from vf import sec_harness as sh
     obs = dict(wire_ciphertext_confirmed=0, reencrypt_equal=0, plaintext_recovered=0, empty_plaintexts=0, kw_bundles=0, mutants_expect_reject=0,
                mutants_expect_accept=0, verify_fail_seen=0, wrong_key_runs=0, mutants_no_security_block=0, mutants_structural_no_obligation=0,
-               delivered_ciphertext_without_accept=0, distinct_generated_ivs=0)
+               delivered_ciphertext_without_accept=0, distinct_generated_ivs=0, multi_target_bcbs=0)
     rng = random.Random(case['seed'])
     violations = []
     classes = set()
@@ -261,12 +279,20 @@ def run_case(case):
         for (kind, text) in problems:
             violations.append(dict(key=None, what='[%s] %s' % (kind, text), detail=dict(mutant=mutant.hex(), case=desc)))
 
+    multi = bool(case.get('multi'))
+
     def make(kind, plen, fixed_iv):
-        bundle = c03.base_bundle(rng, 0, next_=rng.choice([0, 1, 2]), crc=rng.choice([0, 1, 2]), seq=rng.randrange(1, 1000))
+        bundle = c03.base_bundle(rng, 0, next_=rng.choice([1, 2]) if multi else rng.choice([0, 1, 2]), crc=rng.choice([0, 1, 2]), seq=rng.randrange(1, 1000),
+                                 force_types=(192,) if multi else ())
         plain = plaintext_for(rng, plen)
         bpv7.payload_of(bundle)['data'] = plain
-        iv = [bytes(rng.getrandbits(8) for _ in range(12))] if fixed_iv else None
-        return bundle, plain, produce(kind, bundle, iv)
+        iv = [bytes(rng.getrandbits(8) for _ in range(12)) for _ in range(2)] if fixed_iv else None
+        data = produce(kind, bundle, iv, target_types=(1, 192) if multi else (1,))
+        if multi and data:
+            dec0, _p = bpv7.decode(data)
+            if len(cb.parse_asb(next(blk for blk in dec0['blocks'] if blk['type'] == 12)['data'])['targets']) >= 2:
+                obs['multi_target_bcbs'] += 1
+        return bundle, plain, data
 
     try:
         kind = case['kind']
